@@ -292,10 +292,16 @@ theorem slice_sub {rows : List (Row Dat)} (k : Key) :
     bare-callable frame without control features it is the hard-coded call `applyAggModel` -/
 theorem applyAgg_lifted_eq (k : AggKind) (meth : Method) (withMethod : Bool) (t : Tables) (h : t.ncf = 0) :
     applyAgg k meth withMethod t = applyAggModel k meth withMethod t := by
+  -- proved from the slots THIS property uses only (default arguments; the errors='raise' slots of difference / ratio and
+  -- the errors='coerce' slots of group_min / group_max are the business of C02.src_populate_eq_model)
   unfold applyAgg applyAggGot applyAggModel
-  cases k <;> cases withMethod <;>
-    simp [AggCache.groupMinPub_eq, AggCache.groupMaxPub_eq, AggCache.differencePub_eq, AggCache.ratioPub_eq,
-      AggCache.documentedMode, h]
+  cases k <;> cases withMethod <;> cases meth <;>
+    simp [AggCache.groupMinPub, AggCache.groupMaxPub, AggCache.differencePub, AggCache.ratioPub, AggCache.cached,
+      AggCache.entryOf, AggCache.evalCall, AggCache.extractFails, PopulateSrc.populate, PopulateSrc.validErrors,
+      PopulateSrc.compareMethods, PopulateSrc.groupMinDefaultErrors, PopulateSrc.groupMaxDefaultErrors,
+      PopulateSrc.differenceDefaultMethod, PopulateSrc.differenceDefaultErrors, PopulateSrc.ratioDefaultMethod,
+      PopulateSrc.ratioDefaultErrors, PopulateSrc.groupMinSlot, PopulateSrc.groupMaxSlot, PopulateSrc.differenceSlot,
+      PopulateSrc.ratioSlot, FrameSrc.extract_result, h, groupMin, groupMax]
 
 section oneStratum
 variable {f : List Dat → Cell} {g : List Dat → Rat} {nsf : Nat} {rows : List (Row Dat)}
